@@ -174,14 +174,59 @@ def mc_cases(st):
             yield rec
 
 
-def run_harness(mode, cases_path, trace_path, timeout=1800, args=None):
+def run_harness(mode, cases_path, trace_path, timeout=3000, args=None):
+    """runs the harness on a file of cases (one per line; cases are independent of each other): large files are
+    cut into contiguous shards handled by parallel processes, and the traces are concatenated in order"""
     with open(cases_path) as fi:
+        n = sum(1 for _ in fi)
+    k = max(1, min(NCPU, n // 400))
+    if k == 1:
+        with open(cases_path) as fi:
+            try:
+                r = subprocess.run([HARNESS_BIN, mode, trace_path] + (args or []), stdin=fi, stdout=subprocess.DEVNULL, timeout=timeout)
+            except subprocess.TimeoutExpired:
+                raise ToolError("harness timeout")
+        if r.returncode != 0:
+            raise ToolError("harness failed with code %d" % r.returncode)
+        return
+    per = (n + k - 1) // k
+    parts = []
+    with open(cases_path) as fi:
+        for i in range(k):
+            cp, tp = "%s.part%d" % (cases_path, i), "%s.part%d" % (trace_path, i)
+            with open(cp, "w") as fo:
+                for _ in range(per):
+                    line = fi.readline()
+                    if not line:
+                        break
+                    fo.write(line)
+            parts.append((cp, tp))
+    procs = []
+    for cp, tp in parts:
+        procs.append(subprocess.Popen([HARNESS_BIN, mode, tp] + (args or []), stdin=open(cp), stdout=subprocess.DEVNULL))
+    t0 = time.time()
+    bad = None
+    for pr in procs:
         try:
-            r = subprocess.run([HARNESS_BIN, mode, trace_path] + (args or []), stdin=fi, stdout=subprocess.DEVNULL, timeout=timeout)
+            rc = pr.wait(timeout=max(1, timeout - (time.time() - t0)))
+            if rc != 0:
+                bad = "harness failed with code %d" % rc
         except subprocess.TimeoutExpired:
-            raise ToolError("harness timeout")
-    if r.returncode != 0:
-        raise ToolError("harness failed with code %d" % r.returncode)
+            bad = "harness timeout"
+            for q in procs:
+                q.kill()
+            break
+    if bad is None:
+        with open(trace_path, "w") as fo:
+            for cp, tp in parts:
+                with open(tp) as fi:
+                    shutil.copyfileobj(fi, fo)
+    for cp, tp in parts:
+        for x in (cp, tp):
+            if os.path.exists(x):
+                os.remove(x)
+    if bad:
+        raise ToolError(bad)
 
 
 def _tlc_trace_once(module, trace_path, tag):
@@ -215,6 +260,9 @@ def validate_shard(module, lines, tag):
         with open(path, "w") as f:
             f.writelines(lines[pos:])
         out = _tlc_trace_once(module, path, tag)
+        if "Parsing or semantic analysis failed" in out or "Could not find or load main class" in out or "java.lang.OutOfMemoryError" in out:
+            # the specification itself does not load (or the JVM failed): a tool error, never a verdict
+            raise ToolError("TLC could not run %s: %s" % (module, " ".join(l for l in out.splitlines() if "rror" in l)[:300]))
         accepted = None
         consumed = 0
         for line in out.splitlines():
